@@ -700,12 +700,8 @@ void verif::verif_case(Rng & rng, long idx, const std::string & tier) {
     bool ugly = rng.coin(1, 5);
     int sparse = rng.coin(1, 5) ? 1 : (rng.coin(1, 4) ? 2 : 0);             // 1 = SparseModel, 2 = element-wise (non-Eigen) model
     // LinearSupport enumerates polytope vertices naively: keep its instances small (its cost is not this property's subject)
-<<<<<<< HEAD
-    if (which == 2) { if (ugly) { S = std::min<size_t>(S, 3); h = std::min(h, 2u); } else if (S == 4) h = std::min(h, (O >= 3 && A >= 2) ? 2u : 3u); }   // S=4, A=3, O=3, h=3 took > 120 s under ASan (thorough seed 1 case 20370)
-=======
-    if (which == 2) { if (ugly) { S = std::min<size_t>(S, 3); h = std::min(h, 2u); } else if (S == 4) h = std::min(h, A * O >= 9 ? 2u : 3u); }
+    if (which == 2) { if (ugly) { S = std::min<size_t>(S, 3); h = std::min(h, 2u); } else if (S == 4) h = std::min(h, (A * O >= 9 || (O >= 3 && A >= 2)) ? 2u : 3u); }
     if (which == 0 && S == 4 && A * O >= 9) h = std::min(h, 3u);             // the two shapes that took 40-60 s (a busy machine turns that into a reported hang)
->>>>>>> c04r4
     auto pt = ugly ? uglyPomdp(rng, S, A, O) : randomPomdp(rng, S, A, O);
     if (ugly) std::printf("#stat ugly 1\n");
     // large / tiny / offset magnitudes (powers of two keep the dyadic tables exact): the tolerance comparisons (dominates, the
